@@ -207,6 +207,11 @@ func regions01(q *ref.Quote) map[string][2]int {
 }
 
 func c01(x *mon.Ctx) {
+	if !x.Quick() {
+		defer func() {
+			x.Fuzz("FuzzVerifyRaw", 300000)
+		}()
+	}
 	x.Level = "exploration"
 	x.Rule = "(a) every single-bit mutant of the header, TD body, attestation key, QE report and QE auth data of accepted quotes (generated worlds + the two Intel samples) must be rejected; (b) structured one-link-broken forgeries, everything else re-signed, at 3 option levels x entry forms, each derived from a world whose unbroken twin was accepted (twin acceptance is checked, else the run is broken); (c) bit flips in signatures / certificate chain and random multi-byte mutants judged by the reference predicate Authentic(q) (accept => authentic). Non-trivial = the mutant was derived from an accepted twin and was rejected, or was accepted together with the reference; distinct = distinct (class, parameter, form, level)."
 	x.Assume = []string{"ECDSA-P256/SHA-256 unforgeability (a flipped bit verifying by chance has probability ~2^-128)", "Go crypto/ecdsa, crypto/x509, encoding/pem are correct"}
